@@ -232,7 +232,9 @@ def circuit_from_stack(
 
     let_names = [let.name for let in qsyntax.lets]
     register_names = [reg.name for reg in qsyntax.registers]
-    namer = Namer(let_names=let_names, register_names=register_names)
+    # Lets and registers share one namespace: avoid every user-chosen name.
+    user_names = let_names + register_names
+    namer = Namer(let_names=user_names, register_names=user_names)
     sexpr = ["circuit"]
 
     imports = {}
